@@ -1,7 +1,514 @@
-//! C28 — not implemented yet (see DESIGN.md section 4).
-use kit::Run;
-use serde_json::Value;
+//! C28 — no network access unless the configuration enables it; a remote-only asset read with fetching disabled
+//! yields `Error::RemoteManifestUrl(url)` carrying the referenced URL.
+//!
+//! S-inp over configurations, level exploration. The complete product
+//!   verify.remote_manifest_fetch x verify.ocsp_fetch x builder.certificate_status_fetch {none, active, all}
+//!   x builder.auto_timestamp_assertion.enabled x signer TSA URL {none, set} x signing certificate {no AIA, OCSP AIA}
+//!   x asset {embedded, remote-only, remote+embedded} x operation {read, add ingredient, sign} x {sync, async}
+//!   (x format {jpeg} quick, {jpeg, png} thorough)
+//! (dimensions that cannot influence an operation are not multiplied into it: no signer for read/ingredient, no builder
+//! settings for read) is executed with a recording resolver installed through Context::with_resolver /
+//! with_resolver_async that answers remote-manifest GETs with the real sidecar manifest and everything else with 404.
+//! The signer's own time-stamp transport (`Signer::send_timestamp_request` builds a private `Context::new()`, so it does
+//! not go through the installed resolver) is pointed at a loopback listener owned by the harness, which records it.
+//!
+//! Oracle: every observed request is one the configuration explicitly asks for — a remote-manifest GET only if
+//! remote_manifest_fetch is on and the processed asset references that URL; an OCSP GET only if ocsp_fetch or
+//! certificate_status_fetch is on; a TSA request only if the signer has a TSA URL and the operation signs. Reading a
+//! remote-only asset with fetching disabled must give Err(RemoteManifestUrl(u)) with u equal to the embedded URL.
+//!
+//! Mutants caught (tools/mutant_run.sh D <patch> C28 quick):
+//!   C28-invert-remote-fetch.diff   (the remote_manifest_fetch test inverted)
+//!   C28-ocsp-always-fetch.diff     (OCSP fetch policy ignores verify.ocsp_fetch)
 
-pub fn run(_run: &Run, _replay: Option<&Value>) {
-    kit::ev::machinery("C28: check not implemented");
+use std::{
+    io::{Cursor, Read, Write},
+    process::Command,
+    sync::{Arc, Mutex},
+};
+
+use async_trait::async_trait;
+use c2pa::{AsyncSigner, Builder, BuilderIntent, Reader, Signer, SigningAlg};
+use kit::{
+    assets,
+    net::{self, Answer, Transport},
+    par, sdk, Run,
+};
+use serde_json::{json, Value};
+
+const OCSP_URL: &str = "http://ocsp.verif.example/q/";
+const DEF: &str = r#"{"title":"t","claim_generator_info":[{"name":"verif","version":"1"}]}"#;
+
+fn manifest_url(fmt: &str, cert: &str, asset: &str) -> String {
+    format!("https://manifests.verif.example/{fmt}/{cert}/{asset}/m.c2pa")
+}
+
+// ---------------------------------------------------------------------------------------------
+// certificates
+// ---------------------------------------------------------------------------------------------
+
+fn openssl(dir: &std::path::Path, args: &[&str]) {
+    let out = Command::new("openssl").args(args).current_dir(dir).output().unwrap_or_else(|e| kit::ev::machinery(format!("C28: cannot run openssl: {e}")));
+    if !out.status.success() {
+        kit::ev::machinery(format!("C28: openssl {args:?} failed: {}", String::from_utf8_lossy(&out.stderr)));
+    }
+}
+
+/// root -> intermediate -> end entity (P-256) whose EE carries an OCSP AIA. Returns (chain PEM = EE + intermediate, key PEM).
+fn mint_aia_chain() -> (Vec<u8>, Vec<u8>) {
+    let dir = tempfile::tempdir().unwrap_or_else(|e| kit::ev::machinery(format!("C28: tempdir: {e}")));
+    let d = dir.path();
+    let ec = ["genpkey", "-algorithm", "EC", "-pkeyopt", "ec_paramgen_curve:P-256", "-out"];
+    openssl(d, &[&ec[..], &["root.key"]].concat());
+    openssl(d, &["req", "-x509", "-new", "-key", "root.key", "-sha256", "-days", "3650", "-subj", "/C=US/O=Verif D Root/CN=Verif D Root CA", "-out", "root.pem",
+                 "-addext", "basicConstraints=critical,CA:TRUE", "-addext", "keyUsage=critical,keyCertSign,cRLSign"]);
+    openssl(d, &[&ec[..], &["ica.key"]].concat());
+    openssl(d, &["req", "-new", "-key", "ica.key", "-subj", "/C=US/O=Verif D/CN=Verif D Intermediate", "-out", "ica.csr"]);
+    std::fs::write(d.join("ica.ext"), "basicConstraints=critical,CA:TRUE,pathlen:0\nkeyUsage=critical,keyCertSign,cRLSign\nsubjectKeyIdentifier=hash\nauthorityKeyIdentifier=keyid\n").unwrap();
+    openssl(d, &["x509", "-req", "-in", "ica.csr", "-CA", "root.pem", "-CAkey", "root.key", "-CAcreateserial", "-days", "3000", "-sha256", "-extfile", "ica.ext", "-out", "ica.pem"]);
+    openssl(d, &[&ec[..], &["ee.key"]].concat());
+    openssl(d, &["req", "-new", "-key", "ee.key", "-subj", "/C=US/O=Verif D/CN=Verif D Signer", "-out", "ee.csr"]);
+    std::fs::write(
+        d.join("ee.ext"),
+        format!("basicConstraints=critical,CA:FALSE\nkeyUsage=critical,digitalSignature,nonRepudiation\nextendedKeyUsage=critical,emailProtection\nsubjectKeyIdentifier=hash\nauthorityKeyIdentifier=keyid\nauthorityInfoAccess=OCSP;URI:{OCSP_URL}\n"),
+    )
+    .unwrap();
+    openssl(d, &["x509", "-req", "-in", "ee.csr", "-CA", "ica.pem", "-CAkey", "ica.key", "-CAcreateserial", "-days", "2000", "-sha256", "-extfile", "ee.ext", "-out", "ee.pem"]);
+    let rd = |n: &str| std::fs::read(d.join(n)).unwrap_or_else(|e| kit::ev::machinery(format!("C28: read {n}: {e}")));
+    let mut chain = rd("ee.pem");
+    chain.extend(rd("ica.pem"));
+    (chain, rd("ee.key"))
+}
+
+struct Creds {
+    plain: (Vec<u8>, Vec<u8>),
+    aia: (Vec<u8>, Vec<u8>),
+}
+
+impl Creds {
+    fn signer(&self, cert: &str, tsa: Option<String>) -> sdk::SendSigner {
+        let (c, k) = if cert == "aia" { &self.aia } else { &self.plain };
+        let s = c2pa::create_signer::from_keys(c, k, SigningAlg::Es256, tsa).unwrap_or_else(|e| kit::ev::machinery(format!("C28: signer for {cert}: {e:?}")));
+        sdk::SendSigner(s)
+    }
+}
+
+/// AsyncSigner over a sync signer. The time-stamp request is delegated to the SDK's sync default implementation
+/// (the async default needs a tokio reactor for its private reqwest client, which a hand-rolled block_on does not provide).
+struct AsyncOverSync(sdk::SendSigner);
+
+#[async_trait]
+impl AsyncSigner for AsyncOverSync {
+    async fn sign(&self, data: Vec<u8>) -> c2pa::Result<Vec<u8>> {
+        Signer::sign(&self.0, &data)
+    }
+    fn alg(&self) -> SigningAlg {
+        Signer::alg(&self.0)
+    }
+    fn certs(&self) -> c2pa::Result<Vec<Vec<u8>>> {
+        Signer::certs(&self.0)
+    }
+    fn reserve_size(&self) -> usize {
+        Signer::reserve_size(&self.0)
+    }
+    fn time_authority_url(&self) -> Option<String> {
+        Signer::time_authority_url(&self.0)
+    }
+    async fn send_timestamp_request(&self, message: &[u8]) -> Option<c2pa::Result<Vec<u8>>> {
+        Signer::send_timestamp_request(&self.0 .0, message)
+    }
+}
+
+// ---------------------------------------------------------------------------------------------
+// loopback listener standing in for the TSA that the signer's private transport talks to
+// ---------------------------------------------------------------------------------------------
+
+struct Listener {
+    url: String,
+    hits: Arc<Mutex<Vec<String>>>,
+}
+
+fn start_listener() -> Option<Listener> {
+    let l = std::net::TcpListener::bind("127.0.0.1:0").ok()?;
+    let port = l.local_addr().ok()?.port();
+    let hits: Arc<Mutex<Vec<String>>> = Arc::new(Mutex::new(vec![]));
+    let h2 = hits.clone();
+    std::thread::spawn(move || {
+        for s in l.incoming() {
+            let Ok(mut s) = s else { continue };
+            let _ = s.set_read_timeout(Some(std::time::Duration::from_millis(500)));
+            let mut buf = vec![0u8; 8192];
+            let mut got = Vec::new();
+            // read the head (and whatever body arrives with it)
+            loop {
+                match s.read(&mut buf) {
+                    Ok(0) | Err(_) => break,
+                    Ok(n) => {
+                        got.extend_from_slice(&buf[..n]);
+                        if got.windows(4).any(|w| w == b"\r\n\r\n") {
+                            break;
+                        }
+                    }
+                }
+            }
+            let line = String::from_utf8_lossy(&got).lines().next().unwrap_or("").to_string();
+            h2.lock().unwrap().push(line);
+            let _ = s.write_all(b"HTTP/1.1 404 Not Found\r\nContent-Length: 0\r\nConnection: close\r\n\r\n");
+            let _ = s.flush();
+        }
+    });
+    Some(Listener { url: format!("http://127.0.0.1:{port}/tsa"), hits })
+}
+
+// ---------------------------------------------------------------------------------------------
+// cases
+// ---------------------------------------------------------------------------------------------
+
+#[derive(Clone, Debug)]
+struct Case {
+    fmt: &'static str,
+    op: &'static str,
+    asset: &'static str,
+    cert: &'static str,
+    rmf: bool,
+    ocsp: bool,
+    csf: Option<&'static str>,
+    auto_ts: bool,
+    tsa: bool,
+    is_async: bool,
+}
+
+impl Case {
+    fn to_json(&self) -> Value {
+        json!({"fmt": self.fmt, "op": self.op, "asset": self.asset, "cert": self.cert, "remote_manifest_fetch": self.rmf, "ocsp_fetch": self.ocsp,
+               "certificate_status_fetch": self.csf, "auto_timestamp": self.auto_ts, "signer_tsa": self.tsa, "async": self.is_async})
+    }
+    fn from_json(v: &Value) -> Case {
+        let st = |k: &str, opts: &[&'static str]| -> &'static str { opts.iter().copied().find(|o| Some(*o) == v[k].as_str()).unwrap_or_else(|| kit::ev::machinery(format!("replay: bad {k}"))) };
+        Case {
+            fmt: ["jpeg", "png"].iter().copied().find(|o| Some(*o) == v["fmt"].as_str()).unwrap_or("jpeg"),
+            op: st("op", &["read", "ingredient", "sign"]),
+            asset: st("asset", &["embedded", "remote-only", "remote+embedded"]),
+            cert: st("cert", &["plain", "aia"]),
+            rmf: v["remote_manifest_fetch"].as_bool().unwrap_or(false),
+            ocsp: v["ocsp_fetch"].as_bool().unwrap_or(false),
+            csf: ["active", "all"].iter().copied().find(|o| Some(*o) == v["certificate_status_fetch"].as_str()),
+            auto_ts: v["auto_timestamp"].as_bool().unwrap_or(false),
+            tsa: v["signer_tsa"].as_bool().unwrap_or(false),
+            is_async: v["async"].as_bool().unwrap_or(false),
+        }
+    }
+    fn settings(&self) -> String {
+        let mut b = json!({"thumbnail": {"enabled": false}, "auto_timestamp_assertion": {"enabled": self.auto_ts}});
+        if let Some(s) = self.csf {
+            b["certificate_status_fetch"] = json!(s);
+            b["certificate_status_should_override"] = json!(false);
+        }
+        json!({"verify": {"remote_manifest_fetch": self.rmf, "ocsp_fetch": self.ocsp}, "builder": b}).to_string()
+    }
+}
+
+fn all_cases(fmts: &[&'static str]) -> Vec<Case> {
+    let mut v = vec![];
+    let bools = [false, true];
+    for &fmt in fmts {
+    for asset in ["embedded", "remote-only", "remote+embedded"] {
+        for cert in ["plain", "aia"] {
+            for rmf in bools {
+                for ocsp in bools {
+                    for is_async in bools {
+                        v.push(Case { fmt, op: "read", asset, cert, rmf, ocsp, csf: None, auto_ts: false, tsa: false, is_async });
+                        for csf in [None, Some("active"), Some("all")] {
+                            v.push(Case { fmt, op: "ingredient", asset, cert, rmf, ocsp, csf, auto_ts: false, tsa: false, is_async });
+                            for auto_ts in bools {
+                                for tsa in bools {
+                                    v.push(Case { fmt, op: "sign", asset, cert, rmf, ocsp, csf, auto_ts, tsa, is_async });
+                                }
+                            }
+                        }
+                    }
+                }
+            }
+        }
+    }
+    }
+    v
+}
+
+struct World {
+    creds: Creds,
+    /// (format, cert, asset) -> asset bytes
+    assets: Vec<((&'static str, &'static str, &'static str), Vec<u8>)>,
+    /// manifest URL -> sidecar manifest bytes
+    manifests: Vec<(String, Vec<u8>)>,
+    tsa_url: String,
+    listener: Option<Listener>,
+}
+
+fn mime_of(fmt: &str) -> &'static str {
+    if fmt == "png" {
+        "image/png"
+    } else {
+        "image/jpeg"
+    }
+}
+
+/// Context for seed preparation: fetching off and, in case the SDK asks anyway, a transport that answers 404
+/// (seed preparation must never touch the real network, whatever the tree under test does).
+fn offline_ctx() -> c2pa::Context {
+    let t = Transport::new(|_, _| Answer::status(404));
+    sdk::ctx().with_resolver(t.clone()).with_resolver_async(t)
+}
+
+fn build_world(fmts: &[&'static str]) -> World {
+    let creds = Creds { plain: sdk::fixture_keys("es256"), aia: mint_aia_chain() };
+    let mut assets_v = vec![];
+    let mut manifests = vec![];
+    for &fmt in fmts {
+    let src = assets::by_name(fmt);
+    for cert in ["plain", "aia"] {
+        let signer = creds.signer(cert, None);
+        for asset in ["embedded", "remote-only", "remote+embedded"] {
+            let mut b = sdk::builder(offline_ctx(), DEF);
+            let url = manifest_url(fmt, cert, asset);
+            match asset {
+                "remote-only" => {
+                    b.set_remote_url(url.clone());
+                    b.set_no_embed(true);
+                }
+                "remote+embedded" => {
+                    b.set_remote_url(url.clone());
+                }
+                _ => {}
+            }
+            let (bytes, manifest) = sdk::sign(&mut b, &signer, src.mime, &src.data).unwrap_or_else(|e| kit::ev::machinery(format!("C28 seed {fmt}/{cert}/{asset}: {e:?}")));
+            assets_v.push(((fmt, cert, asset), bytes));
+            if asset != "embedded" {
+                manifests.push((url, manifest));
+            }
+        }
+    }
+    }
+    let listener = start_listener();
+    let tsa_url = listener.as_ref().map(|l| l.url.clone()).unwrap_or_else(|| "http://127.0.0.1:1/tsa".to_string());
+    World { creds, assets: assets_v, manifests, tsa_url, listener }
+}
+
+#[derive(Debug)]
+struct Obs {
+    result: String,
+    remote_url_error: Option<String>,
+    requests: Vec<(String, String)>,
+}
+
+fn execute(w: &World, c: &Case) -> Obs {
+    let manifests = w.manifests.clone();
+    let t = Transport::new(move |_, s| match manifests.iter().find(|(u, _)| *u == s.uri) {
+        Some((_, m)) if s.method == "GET" => Answer::ok_body(m.clone()),
+        _ => Answer::status(404),
+    });
+    let ctx = sdk::ctx_with(&[&c.settings()]).with_resolver(t.clone()).with_resolver_async(t.clone());
+    let data = &w.assets.iter().find(|(k, _)| *k == (c.fmt, c.cert, c.asset)).unwrap_or_else(|| kit::ev::machinery("C28: asset missing (replay of a thorough-tier case needs --tier thorough)")).1;
+    let mime = mime_of(c.fmt);
+    let tsa = if c.tsa { Some(w.tsa_url.clone()) } else { None };
+    let mut remote_url_error = None;
+    let mut classify = |r: c2pa::Result<String>| -> String {
+        match r {
+            Ok(s) => format!("Ok({s})"),
+            Err(c2pa::Error::RemoteManifestUrl(u)) => {
+                remote_url_error = Some(u);
+                "Err(RemoteManifestUrl)".to_string()
+            }
+            Err(e) => format!("Err({})", sdk::err_kind(&e)),
+        }
+    };
+    let out = par::guard(|| -> c2pa::Result<String> {
+        match c.op {
+            "read" => {
+                let rd = if c.is_async {
+                    net::block_on(Reader::from_context(ctx).with_stream_async(mime, Cursor::new(data.clone())))?
+                } else {
+                    Reader::from_context(ctx).with_stream(mime, Cursor::new(data.clone()))?
+                };
+                Ok(sdk::state_name(rd.validation_state()).to_string())
+            }
+            "ingredient" => {
+                let mut b = Builder::from_context(ctx).with_definition(DEF)?;
+                let ij = r#"{"title":"i","relationship":"componentOf"}"#;
+                if c.is_async {
+                    net::block_on(b.add_ingredient_from_stream_async(ij, mime, &mut Cursor::new(data.clone())))?;
+                } else {
+                    b.add_ingredient_from_stream(ij, mime, &mut Cursor::new(data.clone()))?;
+                }
+                Ok("added".to_string())
+            }
+            _ => {
+                let mut b = Builder::from_context(ctx).with_definition(DEF)?;
+                b.set_intent(BuilderIntent::Edit);
+                let signer = w.creds.signer(c.cert, tsa.clone());
+                let mut dst = Cursor::new(Vec::new());
+                if c.is_async {
+                    let s = AsyncOverSync(signer);
+                    net::block_on(b.sign_async(&s, mime, &mut Cursor::new(data.clone()), &mut dst))?;
+                } else {
+                    b.sign(&signer, mime, &mut Cursor::new(data.clone()), &mut dst)?;
+                }
+                Ok("signed".to_string())
+            }
+        }
+    });
+    let result = match out {
+        Err(p) => format!("PANIC {p}"),
+        Ok(r) => classify(r),
+    };
+    Obs { result, remote_url_error, requests: t.seen().into_iter().map(|s| (s.method, s.uri)).collect() }
+}
+
+/// Why a request is allowed, or `Err(kind)`.
+fn allowed(w: &World, c: &Case, method: &str, uri: &str) -> Result<&'static str, &'static str> {
+    if w.manifests.iter().any(|(u, _)| u == uri) {
+        let own = manifest_url(c.fmt, c.cert, c.asset);
+        return if c.rmf && c.asset != "embedded" && uri == own { Ok("remote-manifest") } else { Err("remote-manifest") };
+    }
+    if uri.starts_with(OCSP_URL) {
+        return if c.ocsp || c.csf.is_some() { Ok("ocsp") } else { Err("ocsp") };
+    }
+    if uri == w.tsa_url {
+        return if c.tsa && c.op == "sign" { Ok("tsa") } else { Err("tsa") };
+    }
+    let _ = method;
+    Err("other")
+}
+
+fn judge(run: &Run, w: &World, c: &Case, obs: &Obs) {
+    let case = c.to_json();
+    if obs.result.starts_with("PANIC") {
+        run.violation(format!("panic op={}", c.op), obs.result.clone(), case.clone());
+    }
+    for (m, u) in &obs.requests {
+        match allowed(w, c, m, u) {
+            Ok(kind) => run.outcome(format!("request-asked-for:{kind}:{}", c.op)),
+            Err(kind) => run.violation(
+                format!("unexpected-request kind={kind} op={} asset={}", c.op, c.asset),
+                format!("{m} {u} was sent although the configuration does not ask for it ({})", c.settings()),
+                case.clone(),
+            ),
+        }
+    }
+    if c.op == "read" && c.asset == "remote-only" && !c.rmf {
+        let want = manifest_url(c.fmt, c.cert, c.asset);
+        if obs.result != "Err(RemoteManifestUrl)" {
+            run.violation(
+                format!("remote-only-fetch-disabled result={}", obs.result),
+                format!("reading a remote-only asset with remote_manifest_fetch=false gave {} instead of RemoteManifestUrl({want})", obs.result),
+                case.clone(),
+            );
+        } else if obs.remote_url_error.as_deref() != Some(want.as_str()) {
+            run.violation(
+                "remote-only-fetch-disabled url-differs",
+                format!("RemoteManifestUrl carries {:?}, the asset references {want}", obs.remote_url_error),
+                case,
+            );
+        }
+    }
+}
+
+pub fn run(run: &Run, replay: Option<&Value>) {
+    run.rule(
+        "one case = (operation, asset kind, signing certificate, settings vector, signer TSA, sync|async); every case of the product is executed \
+         once on the real SDK with a recording resolver. non-trivial = cases in which at least one request was observed or in which the \
+         remote-only/fetch-disabled error rule applies (identified by the case vector).",
+    );
+    run.assume("requests made through Context::resolver()/resolver_async() are observed by the installed recording resolver; the signer's private time-stamp transport (Signer::send_timestamp_request builds its own Context::new()) is observed by a loopback listener the TSA URL points at; any other transport the SDK might open directly would be invisible");
+    run.assume("async operations are driven by a hand-rolled block_on; the async signer delegates its time-stamp request to the SDK's sync default implementation (no tokio reactor)");
+    run.assume("OCSP-capable certificate: a P-256 chain minted with the openssl CLI whose end-entity carries an OCSP AIA; the repository's es256 test credentials have no AIA");
+    let fmts: Vec<&'static str> = run.tier.pick(vec!["jpeg"], vec!["jpeg", "png"]);
+    let w = build_world(if replay.is_some() { &["jpeg", "png"] } else { &fmts });
+    if let Some(c) = replay {
+        let case = Case::from_json(c);
+        let obs = execute(&w, &case);
+        println!("replay {case:?}: {obs:?}");
+        run.eval();
+        judge(run, &w, &case, &obs);
+        return;
+    }
+    // seeds (checked without relying on the gating logic under test): embedded ones validate offline; remote-only ones
+    // carry the URL in their XMP, no embedded manifest, and their sidecar manifest validates against the asset
+    for ((fmt, cert, asset), bytes) in &w.assets {
+        let mime = mime_of(fmt);
+        if *asset == "remote-only" {
+            let url = manifest_url(fmt, cert, asset);
+            let xmp = c2pa::verif_hooks::read_xmp(mime, bytes).unwrap_or_default();
+            if !xmp.contains(&url) {
+                kit::ev::machinery(format!("C28 seed {fmt}/{cert}/remote-only: XMP does not carry {url}"));
+            }
+            let m = &w.manifests.iter().find(|(u, _)| *u == url).unwrap_or_else(|| kit::ev::machinery("C28: sidecar missing")).1;
+            match Reader::from_context(offline_ctx()).with_manifest_data_and_stream(m, mime, Cursor::new(bytes.clone())) {
+                Ok(rd) if sdk::state_name(rd.validation_state()) != "Invalid" => {}
+                other => kit::ev::machinery(format!("C28 seed {fmt}/{cert}/remote-only: sidecar does not validate: {:?}", other.as_ref().map(|r| r.validation_state()))),
+            }
+        } else {
+            match sdk::read(offline_ctx(), mime, bytes) {
+                Ok(rd) if sdk::state_name(rd.validation_state()) != "Invalid" => {}
+                other => kit::ev::machinery(format!("C28 seed {fmt}/{cert}/{asset} does not read back valid: {:?}", other.as_ref().map(|r| r.validation_state()))),
+            }
+        }
+    }
+    let cases = all_cases(&fmts);
+    // determinism
+    {
+        let c = cases.iter().find(|c| c.op == "read" && c.asset == "remote-only" && c.rmf && c.cert == "aia" && c.ocsp && !c.is_async).unwrap();
+        let (a, b) = (execute(&w, c), execute(&w, c));
+        if a.requests != b.requests || a.result != b.result {
+            kit::ev::machinery(format!("C28: baseline not deterministic: {a:?} vs {b:?}"));
+        }
+        run.sample(json!({"case": c.to_json(), "requests": a.requests, "result": a.result}));
+    }
+    run.space("operations x assets x certificates x settings vectors x signer TSA x {sync,async} (irrelevant dimensions not multiplied)", cases.len() as u64, true);
+    let kinds: Mutex<std::collections::BTreeMap<&'static str, u64>> = Mutex::new(Default::default());
+    let samples = Mutex::new(0usize);
+    par::for_each(&cases, |c| {
+        let obs = execute(&w, c);
+        run.eval();
+        judge(run, &w, c, &obs);
+        run.outcome(format!("{}:{}:{}", c.op, c.asset, obs.result));
+        if !obs.requests.is_empty() || (c.op == "read" && c.asset == "remote-only" && !c.rmf) {
+            run.nontrivial(format!("{:?}", c));
+        }
+        let mut g = kinds.lock().unwrap();
+        for (m, u) in &obs.requests {
+            if let Ok(k) = allowed(&w, c, m, u) {
+                *g.entry(k).or_default() += 1;
+            }
+        }
+        drop(g);
+        let mut s = samples.lock().unwrap();
+        if *s < 8 && obs.requests.len() >= 2 {
+            *s += 1;
+            run.sample(json!({"case": c.to_json(), "requests": obs.requests, "result": obs.result}));
+        }
+    });
+    let g = kinds.lock().unwrap();
+    run.extra("asked_for_requests_observed", json!(*g));
+    let tsa_hits = w.listener.as_ref().map(|l| l.hits.lock().unwrap().len()).unwrap_or(0);
+    run.extra("tsa_requests_seen_by_loopback_listener", json!(tsa_hits));
+    run.extra("loopback_listener", json!(w.listener.is_some()));
+    // non-vacuity gates only decide when the run found nothing: a violating tree must be reported as such
+    let quiet = run.violation_count() == 0;
+    if quiet && g.get("remote-manifest").copied().unwrap_or(0) == 0 {
+        kit::ev::machinery("C28: no remote-manifest fetch was ever observed: the remote_manifest_fetch dimension is vacuous");
+    }
+    if quiet && g.get("ocsp").copied().unwrap_or(0) == 0 {
+        kit::ev::machinery("C28: no OCSP request was ever observed: the ocsp dimensions are vacuous");
+    }
+    if quiet && g.get("tsa").copied().unwrap_or(0) == 0 && tsa_hits == 0 {
+        kit::ev::machinery("C28: no time-stamp request was ever observed: the TSA dimension is vacuous");
+    }
+    // the listener is only known to cases with a signer TSA; anything it saw is asked for by construction
+    if let Some(l) = &w.listener {
+        let hits = l.hits.lock().unwrap();
+        if let Some(h) = hits.iter().find(|h| !h.contains("/tsa")) {
+            run.violation("unexpected-request kind=loopback-listener", format!("the loopback listener saw {h}"), json!({"listener": h}));
+        }
+    }
 }
